@@ -16,6 +16,8 @@ pub enum Scope {
     Transfer,
     /// size budget and block-size choice (C10)
     Budget,
+    /// upload clauses observed inside a mixed session (C09)
+    Upload,
 }
 
 #[derive(Debug)]
@@ -50,6 +52,21 @@ pub struct DlCfg {
     pub typ: u8,
     /// stop (abandon the transfer) after this many blocks were received, leaving it cached
     pub abandon_after: Option<usize>,
+    /// every request of the transfer uses a token of a different length (0..=tkl)
+    pub vary_tkl: bool,
+    /// request method code (GET unless a session says otherwise)
+    pub code: u8,
+    /// the transfer starts with a Block1 upload of this body at this SZX; its final block is the
+    /// request whose (possibly block-wise) reply is then fetched
+    pub upload: Option<(Vec<u8>, u8)>,
+    /// payload of the first request when there is no upload phase
+    pub req_payload: Vec<u8>,
+}
+
+impl DlCfg {
+    pub fn base() -> DlCfg {
+        DlCfg { ep: 0, path: vec![], body: vec![], reply_opts: vec![], tkl: 0, strategy: Strategy::Follow, typ: 0, abandon_after: None, vary_tkl: false, code: 1, upload: None, req_payload: vec![] }
+    }
 }
 
 #[derive(Debug, Default)]
@@ -112,24 +129,67 @@ pub fn download(server: &mut Server, cfg: &DlCfg, ids: &mut Ids) -> (Vec<Finding
         Strategy::Reduce { early, .. } => *early,
         Strategy::Follow => None,
     };
-    let mut req = ReqSpec::new(1, &path);
-    req.typ = cfg.typ;
-    let (mid, tok) = ids.next(cfg.tkl);
-    req.mid = mid;
-    req.token = tok;
-    req.block2 = client_szx.map(|s| (0, false, s));
-    let ex = server.exchange(&req.bytes(), cfg.ep, &mut app);
     macro_rules! bail {
         ($scope:expr, $sig:expr, $($arg:tt)*) => {{
             out.push(f($scope, $sig, format!($($arg)*)));
             return (out, st);
         }};
     }
+    let tkl_for = |ids: &Ids| if cfg.vary_tkl { (ids.mid as usize * 7 + 3) % (cfg.tkl + 1) } else { cfg.tkl };
+    let mut req = ReqSpec::new(cfg.code, &path);
+    req.typ = cfg.typ;
+    req.payload = cfg.req_payload.clone();
+    // optional upload phase: every non-final block must be continued without reaching the application
+    if let Some((ubody, uszx)) = &cfg.upload {
+        let s = szx_size(*uszx);
+        let n = if ubody.is_empty() { 1 } else { ubody.len().div_ceil(s) };
+        for i in 0..n - 1 {
+            let mut r = ReqSpec::new(cfg.code, &path);
+            let (mid, tok) = ids.next(tkl_for(ids));
+            r.mid = mid;
+            r.token = tok;
+            r.block1 = Some((i as u32, true, *uszx));
+            r.payload = ubody[i * s..(i + 1) * s].to_vec();
+            let e = server.exchange(&r.bytes(), cfg.ep, &mut app);
+            if let Step::Panic(p) = &e.intercept_request {
+                bail!(Scope::Upload, &p.sig(), "{}", p.text());
+            }
+            if e.app_called || e.intercept_request.ok() != Some(true) || e.reply_code() != Some(0x5f) {
+                bail!(Scope::Upload, "non-final-block-not-continued", "session upload block {}: {}", i, e.summary());
+            }
+        }
+        req.block1 = Some(((n - 1) as u32, false, *uszx));
+        req.payload = ubody[(n - 1) * s..].to_vec();
+    }
+    let (mid, tok) = ids.next(tkl_for(ids));
+    req.mid = mid;
+    req.token = tok;
+    req.block2 = client_szx.map(|s| (0, false, s));
+    let ex = server.exchange(&req.bytes(), cfg.ep, &mut app);
     if let Step::Panic(p) = &ex.intercept_request {
         bail!(Scope::Transfer, &p.sig(), "{}", p.text());
     }
     if ex.intercept_request.ok() != Some(false) || !ex.app_called {
         bail!(Scope::Transfer, "first-request-not-passed-to-application", "{}", ex.summary());
+    }
+    if let Some((ubody, uszx)) = &cfg.upload {
+        // the reply to the final upload block carries the Block1 acknowledgement - also when that
+        // reply is itself cut into blocks
+        if let Some(reply) = &ex.reply {
+            let s = szx_size(*uszx);
+            let n = if ubody.is_empty() { 1 } else { ubody.len().div_ceil(s) };
+            let raw: Vec<Vec<u8>> = reply.get_option(CoapOption::Block1).map(|l| l.iter().cloned().collect()).unwrap_or_default();
+            let acked = raw.len() == 1 && parse_block(&raw[0]).map(|(nr, _, sr)| nr as usize * szx_size(sr) == (n - 1) * s && sr <= *uszx).unwrap_or(false);
+            if !acked {
+                bail!(Scope::Upload, "final-response-without-block1", "reply to the final upload block (block {} of size {}) carries Block1 {:?}; reply is {}", n - 1, s, raw, ex.summary());
+            }
+        }
+        let seen = ex.app_saw_payload.clone().unwrap_or_default();
+        if &seen != ubody {
+            bail!(Scope::Upload, "delivered-body-differs-in-session", "application received {} bytes, client uploaded {} (first difference at {})", seen.len(), ubody.len(), seen.iter().zip(ubody.iter()).position(|(a, b)| a != b).unwrap_or(seen.len().min(ubody.len())));
+        }
+    } else if ex.app_saw_payload.as_deref() != Some(&cfg.req_payload[..]) {
+        bail!(Scope::Transfer, "request-payload-altered", "application saw {:?} bytes, request carried {}", ex.app_saw_payload.as_ref().map(|p| p.len()), cfg.req_payload.len());
     }
     match ex.intercept_response.as_ref().unwrap() {
         Step::Panic(p) => bail!(Scope::Transfer, &p.sig(), "{}", p.text()),
@@ -161,7 +221,12 @@ pub fn download(server: &mut Server, cfg: &DlCfg, ids: &mut Ids) -> (Vec<Finding
         if u8::from(reply.header.code) != 0x45 {
             bail!(Scope::Transfer, "reply-code", "code {} on block {}", reply.header.code, blocks_done);
         }
-        let got_opts = reply_opts_without(reply, 23);
+        let mut got_opts = reply_opts_without(reply, 23);
+        if cfg.upload.is_some() {
+            // the Block1 acknowledgement rides on the reply to the final upload block (and on the
+            // blocks cut from it); it is not one of the application's options
+            got_opts.retain(|o| o.0 != 27);
+        }
         if got_opts != want_opts {
             bail!(Scope::Transfer, if first { "options-on-first-block" } else { "options-not-repeated-on-follow-up-block" }, "block {}: options {:?}, application set {:?}", blocks_done, got_opts.iter().map(|o| o.0).collect::<Vec<_>>(), want_opts.iter().map(|o| o.0).collect::<Vec<_>>());
         }
@@ -253,9 +318,9 @@ pub fn download(server: &mut Server, cfg: &DlCfg, ids: &mut Ids) -> (Vec<Finding
                 }
                 client_szx = Some(next_szx);
                 let nsize = szx_size(next_szx);
-                let mut r = ReqSpec::new(1, &path);
+                let mut r = ReqSpec::new(cfg.code, &path);
                 r.typ = cfg.typ;
-                let (mid, tok) = ids.next(cfg.tkl);
+                let (mid, tok) = ids.next(tkl_for(ids));
                 r.mid = mid;
                 r.token = tok;
                 r.block2 = Some(((received.len() / nsize) as u32, false, next_szx));
@@ -283,7 +348,7 @@ pub fn download(server: &mut Server, cfg: &DlCfg, ids: &mut Ids) -> (Vec<Finding
     }
     // cache released: the next request reaches the application again (with and without Block2)
     for probe_b2 in [None, Some((0u32, false, st.chosen_szx.unwrap_or(2)))] {
-        let mut r = ReqSpec::new(1, &path);
+        let mut r = ReqSpec::new(cfg.code, &path);
         let (mid, tok) = ids.next(cfg.tkl);
         r.mid = mid;
         r.token = tok;
@@ -575,6 +640,83 @@ fn dl_one(rep: &mut Report, budget: usize, cfg: &DlCfg, ids: &mut Ids, scope: Sc
     rep.sample_every(1009, || witness.clone());
 }
 
+
+/// Several complete transfers of different shapes, one after the other, on ONE handler and ONE
+/// (endpoint, method, path): plain requests with small or block-wise replies, Block1 uploads
+/// whose final reply is small or block-wise, early negotiation on the final upload block.
+/// Whatever an earlier transfer left behind must not leak into a later one.
+pub fn run_sessions(rep: &mut Report, r: &mut Rng, n: u64, level: u32, scope: Scope, ids: &mut Ids) {
+    for _ in 0..n {
+        rep.eval();
+        let code = *r.pick(&[2u8, 3, 5, 1]);
+        let tkl = r.usize_below(9);
+        let opts = gen_reply_opts(r);
+        let overhead = reply_overhead(tkl, &opts) + 4; // + Block1 acknowledgement
+        let m = r.urange((overhead + 28 + 64).min(1280), 1280);
+        let maxblock = m - overhead - 12;
+        let mut server = Server::new(m, LONG);
+        let ntx = r.urange(3, 6);
+        let mut story: Vec<String> = Vec::new();
+        let mut ok = true;
+        for t in 0..ntx {
+            let upload = if code != 1 && r.bool() {
+                // a block size whose request fits the budget with room to spare
+                let mut szx = r.below(5) as u8;
+                while szx > 0 && 60 + szx_size(szx) > m {
+                    szx -= 1;
+                }
+                let s = szx_size(szx);
+                let ulen = match r.below(3) {
+                    0 => s * r.urange(1, 4),
+                    1 => s * r.urange(1, 4) + r.urange(1, s - 1),
+                    _ => r.usize_below(s),
+                };
+                Some((body_bytes(r.next_u64(), ulen), szx))
+            } else {
+                None
+            };
+            let blen = match r.below(3) {
+                0 => r.usize_below(12),
+                1 => r.urange(maxblock, 5 * maxblock + 30),
+                _ => r.urange(1, 3 * maxblock),
+            };
+            let blen = if level == 0 { blen.min(400) } else { blen };
+            let strategy = match r.below(4) {
+                0 | 1 => Strategy::Follow,
+                2 => Strategy::Early(r.below(7) as u8),
+                _ => Strategy::Reduce { early: None, after: r.urange(1, 2), new_szx: r.below(2) as u8 },
+            };
+            let cfg = DlCfg { ep: 7, path: vec!["sess".into()], body: body_bytes(r.next_u64(), blen), reply_opts: opts.clone(), tkl, strategy, typ: 0, abandon_after: None, vary_tkl: r.chance(1, 3), code, upload, req_payload: if code != 1 && r.bool() { b"q".to_vec() } else { vec![] } };
+            story.push(format!("#{} {} upload {:?} reply {}B strategy {:?} vary_tkl {}", t, coap_lite::MessageClass::from(code), cfg.upload.as_ref().map(|u| (u.0.len(), szx_size(u.1))), blen, cfg.strategy, cfg.vary_tkl));
+            let witness = format!("session on one handler and key, budget {} reply options {:?}: {}", m, opts.iter().map(|o| o.0).collect::<Vec<_>>(), story.join(" ; "));
+            set_case_str(&witness);
+            let (findings, st) = download(&mut server, &cfg, ids);
+            let clean = findings.is_empty();
+            let findings: Vec<Finding> = findings.into_iter().map(|mut x| {
+                x.sig = format!("in-session:{}", x.sig);
+                x
+            }).collect();
+            report_findings(rep, findings, scope, &witness);
+            if cfg.upload.is_some() {
+                rep.count("session_transfers_with_upload_phase");
+            }
+            if st.fragmented {
+                rep.count("session_transfers_with_blockwise_reply");
+            }
+            if !clean {
+                ok = false;
+                break;
+            }
+            rep.count("session_transfers_held");
+        }
+        if ok {
+            rep.count("sessions_held");
+        }
+        rep.distinct(mix(&[0x5E55, code as u64, ntx as u64, fnv(story.join("").as_bytes()) % 4096]));
+        rep.sample_every(211, || story.join(" ; "));
+    }
+}
+
 pub fn run_c08(ctx: &mut Ctx) {
     let mut r = ctx.rng(8);
     let (level, budget, shard, nshards) = (ctx.level, ctx.budget, ctx.shard, ctx.nshards);
@@ -602,7 +744,7 @@ pub fn run_c08(ctx: &mut Ctx) {
                 };
                 // budget that yields exactly `size`: overhead + 12 + size + d, d < size
                 let m = overhead + 12 + size + (len * 7 + strat) % size;
-                let cfg = DlCfg { ep: 1, path: vec!["res".into(), format!("{}", len)], body: body_bytes(len as u64, len), reply_opts, tkl, strategy, typ: (len % 2) as u8, abandon_after: None };
+                let cfg = DlCfg { ep: 1, path: vec!["res".into(), format!("{}", len)], body: body_bytes(len as u64, len), reply_opts, tkl, strategy, typ: (len % 2) as u8, abandon_after: None, vary_tkl: false, ..DlCfg::base() };
                 dl_one(rep, m, &cfg, &mut ids, Scope::Transfer);
             }
         }
@@ -635,7 +777,10 @@ pub fn run_c08(ctx: &mut Ctx) {
             3 => Strategy::Reduce { early: None, after: r.urange(1, 3), new_szx: r.below(4) as u8 },
             _ => Strategy::Reduce { early: Some(r.urange(2, 6) as u8), after: r.urange(1, 4), new_szx: r.below(3) as u8 },
         };
-        let cfg = DlCfg { ep: r.below(4) as u32, path: vec!["d".into(), format!("{}", r.below(5))], body: body_bytes(r.next_u64(), len), reply_opts, tkl, strategy, typ: r.below(2) as u8, abandon_after: None };
+        let cfg = DlCfg { ep: r.below(4) as u32, path: vec!["d".into(), format!("{}", r.below(5))], body: body_bytes(r.next_u64(), len), reply_opts, tkl, strategy, typ: r.below(2) as u8, abandon_after: None, vary_tkl: r.chance(1, 3), ..DlCfg::base() };
+        if cfg.vary_tkl {
+            rep.count("transfers_with_varying_token_length");
+        }
         dl_one(rep, m, &cfg, &mut ids, Scope::Transfer);
     }
     // a transfer abandoned midway, then a fresh one for the same key that starts WITHOUT a Block2
@@ -656,8 +801,8 @@ pub fn run_c08(ctx: &mut Ctx) {
             _ => r.urange(maxblock + 1, 8 * maxblock),
         };
         let path = vec!["again".to_string(), format!("{}", i % 3)];
-        let a = DlCfg { ep: 5, path: path.clone(), body: body_bytes(r.next_u64(), len_a), reply_opts: opts_a, tkl, strategy: if r.bool() { Strategy::Follow } else { Strategy::Early(r.below(7) as u8) }, typ: 0, abandon_after: Some(r.urange(1, 2)) };
-        let b = DlCfg { ep: 5, path, body: body_bytes(r.next_u64(), len_b), reply_opts: opts_b, tkl, strategy: Strategy::Follow, typ: 0, abandon_after: None };
+        let a = DlCfg { ep: 5, path: path.clone(), body: body_bytes(r.next_u64(), len_a), reply_opts: opts_a, tkl, strategy: if r.bool() { Strategy::Follow } else { Strategy::Early(r.below(7) as u8) }, typ: 0, abandon_after: Some(r.urange(1, 2)), vary_tkl: false, ..DlCfg::base() };
+        let b = DlCfg { ep: 5, path, body: body_bytes(r.next_u64(), len_b), reply_opts: opts_b, tkl, strategy: Strategy::Follow, typ: 0, abandon_after: None, vary_tkl: false, ..DlCfg::base() };
         let witness = format!("restart: budget {} first transfer body {}B abandoned after {:?} blocks (strategy {:?}), then a new transfer without Block2, body {}B, reply options {:?} -> {:?}", m, len_a, a.abandon_after, a.strategy, len_b, a.reply_opts.iter().map(|o| o.0).collect::<Vec<_>>(), b.reply_opts.iter().map(|o| o.0).collect::<Vec<_>>());
         set_case_str(&witness);
         let mut server = Server::new(m, LONG);
@@ -680,7 +825,11 @@ pub fn run_c08(ctx: &mut Ctx) {
         }
         rep.distinct(mix(&[0xAB, (len_a % 7) as u64, (len_b % 7) as u64, (sa.blocks) as u64, m as u64 % 5]));
     }
+    run_sessions(rep, &mut r, (budget / 2).max(if level == 0 { 2 } else { 40 }), level, Scope::Transfer, &mut ids);
+    rep.floor("session_transfers_with_blockwise_reply", 1);
+    rep.floor("session_transfers_with_upload_phase", 1);
     rep.floor("restarts_fragmented", 1);
+    rep.floor("transfers_with_varying_token_length", 1);
     rep.floor("transfers_fragmented", (rep.evaluations / 4).max(1));
     rep.floor("strategy_follow", 1);
     rep.floor("strategy_early", 1);
@@ -867,6 +1016,8 @@ pub fn run_c09(ctx: &mut Ctx) {
             rep.count(if is_413 { "band_answered_4_13" } else { "band_passed_through" });
         }
     }
+    run_sessions(rep, &mut r, (budget / 2).max(if level == 0 { 2 } else { 40 }), level, Scope::Upload, &mut ids);
+    rep.floor("session_transfers_with_upload_phase", 1);
     rep.floor("uploads_held", 1);
     rep.floor("uploads_multi_block", 10);
     rep.floor("uploads_after_abandoned_prefix", 5);
@@ -913,7 +1064,7 @@ pub fn run_c10(ctx: &mut Ctx) {
                         Some(s) => Strategy::Early(s),
                     };
                     let len = [0usize, 10, 100, 700, 2100][(idx as usize + optsel) % 5];
-                    let cfg = DlCfg { ep: 1, path: vec!["c10".into()], body: body_bytes(idx, len), reply_opts: reply_opts.clone(), tkl, strategy, typ: 0, abandon_after: None };
+                    let cfg = DlCfg { ep: 1, path: vec!["c10".into()], body: body_bytes(idx, len), reply_opts: reply_opts.clone(), tkl, strategy, typ: 0, abandon_after: None, vary_tkl: false, ..DlCfg::base() };
                     dl_one(rep, m, &cfg, &mut ids, Scope::Budget);
                     rep.bucket(&format!("budget_minus_overhead_minus_12_near_2^{}", (m - overhead - 12).max(1).ilog2()));
                 }
@@ -937,7 +1088,7 @@ pub fn run_c10(ctx: &mut Ctx) {
                     if len < 0 {
                         continue;
                     }
-                    let cfg = DlCfg { ep: 1, path: vec!["edge".into()], body: body_bytes(idx, len as usize), reply_opts: reply_opts.clone(), tkl, strategy: Strategy::Follow, typ: (idx % 2) as u8, abandon_after: None };
+                    let cfg = DlCfg { ep: 1, path: vec!["edge".into()], body: body_bytes(idx, len as usize), reply_opts: reply_opts.clone(), tkl, strategy: Strategy::Follow, typ: (idx % 2) as u8, abandon_after: None, vary_tkl: false, ..DlCfg::base() };
                     dl_one(rep, m, &cfg, &mut ids, Scope::Budget);
                     rep.count("edge_of_fragmentation_cases");
                 }
@@ -971,7 +1122,7 @@ pub fn run_c10(ctx: &mut Ctx) {
         if m > 1280 {
             continue;
         }
-        let cfg = DlCfg { ep: 2, path: vec![String::from_utf8(vec![b'x'; plen]).unwrap()], body: body_bytes(r.next_u64(), len), reply_opts, tkl, strategy, typ: r.below(2) as u8, abandon_after: None };
+        let cfg = DlCfg { ep: 2, path: vec![String::from_utf8(vec![b'x'; plen]).unwrap()], body: body_bytes(r.next_u64(), len), reply_opts, tkl, strategy, typ: r.below(2) as u8, abandon_after: None, vary_tkl: false, ..DlCfg::base() };
         dl_one(rep, m, &cfg, &mut ids, Scope::Budget);
     }
     // uploads: the request's overhead is what matters
